@@ -260,4 +260,38 @@ def closeConn (cfg : SCfg) (n : SNet) : SNet :=
   let r := srvOnClose cfg n.sst
   { n with sst := r.1, dl := n.dl ++ r.2 }
 
+/-! ## One side alone (the peer is arbitrary)
+
+`srvFeed` runs the server on any sequence of incoming messages - not only the ones a correct
+client sends; `cliFeed` runs the client of one request on whatever a peer has queued.  Used by the
+correspondence runs that drive the real `SnepServer._serve` / `put_octets` / `get_octets` with
+hostile peers (wrong version, wrong length field, short or missing fragments, wrong Continue). -/
+
+/-- messages arrive in order; a server that has terminated drops them (its socket is closed) -/
+def srvFeed (cfg : SCfg) : SState → List Bytes → SState × List Bytes × List (Op × Bytes)
+  | st, [] => (st, [], [])
+  | st, m :: rest =>
+    if swait st then
+      let r := srvOnRecv cfg st m
+      let r2 := srvFeed cfg r.1 rest
+      (r2.1, r.2.1 ++ r2.2.1, r.2.2 ++ r2.2.2)
+    else srvFeed cfg st rest
+
+/-- the client takes queued messages as long as it waits; returns the state, what it sent and
+what it left in the socket -/
+def cliFeed : CState → List Bytes → CState × List Bytes × List Bytes
+  | st, [] => (st, [], [])
+  | st, m :: rest =>
+    if cwait st then
+      let r := cliOnRecv st m
+      let r2 := cliFeed r.1 rest
+      (r2.1, r.2 ++ r2.2.1, r2.2.2)
+    else (st, [], m :: rest)
+
+/-- one `put_octets` / `get_octets` against a peer that has `script` queued -/
+def cliAlone (cc : CCfg) (op : Op) (octets : Bytes) (script : List Bytes) : CRes × List Bytes × List Bytes :=
+  let s := cliStart cc.miu cc.acc op octets
+  let r := cliFeed s.1 script
+  (cliOnTimeout r.1, s.2 ++ r.2.1, r.2.2)
+
 end NfcVerif.Snep
